@@ -190,3 +190,14 @@ MUTANTS += [
  ('C10', 'unresolvable-cache-poisons-resolvable', CRM, "        if klass in _unresolvable:\n            raise ConflictError", "        if _unresolvable:\n            raise ConflictError"),
  ('C10', 'old-state-from-committed-serial', CRM, "        oldData = self.loadSerial(oid, oldSerial)", "        oldData = self.loadSerial(oid, committedSerial)"),
 ]
+RPZ = 'scripts/repozo.py'
+MUTANTS += [
+ ('C18', 'incremental-despite-prefix-mismatch', RPZ, "        if reposum == srcsum_backedup:\n            log('doing incremental, starting at: %s', reposz)", "        if True:\n            log('doing incremental, starting at: %s', reposz)"),
+ ('C18', 'find-files-date-lt', RPZ, "        if root <= when:\n            needed.append(fname)", "        if root < when:\n            needed.append(fname)"),
+ ('C18', 'dat-line-wrong-end', RPZ, "    print(dest, reposz, pos, sum, file=fp)\n    fp.flush()", "    print(dest, reposz, pos + 1, sum, file=fp)\n    fp.flush()"),
+ ('C18', 'verify-skips-last-file', RPZ, "    with open(datfile) as fp:\n        for line in fp:\n            fn, startpos, endpos, sum = line.split()\n            startpos = int(startpos)\n            endpos = int(endpos)\n            filename = os.path.join(options.repository,\n                                    os.path.basename(fn))\n            expected_size = endpos - startpos", "    with open(datfile) as fp:\n        lines = fp.readlines()\n        for line in (lines[:-1] or lines):\n            fn, startpos, endpos, sum = line.split()\n            startpos = int(startpos)\n            endpos = int(endpos)\n            filename = os.path.join(options.repository,\n                                    os.path.basename(fn))\n            expected_size = endpos - startpos"),
+ ('C18', 'full-backup-copies-whole-file', RPZ, "    log('writing full backup: %s bytes to %s', pos, dest)\n    sum = copyfile(options, dest, 0, pos)", "    pos = os.path.getsize(options.file)\n    log('writing full backup: %s bytes to %s', pos, dest)\n    sum = copyfile(options, dest, 0, pos)"),
+ ('C18', 'recover-restores-first-index', RPZ, "            last_base = os.path.splitext(repofiles[-1])[0]", "            last_base = os.path.splitext(repofiles[0])[0]"),
+ ('C18', 'quick-verify-ignores-size', RPZ, "            if size != expected_size:\n                raise VerificationFail(\n                    \"%s is %d bytes%s, should be %d bytes\" % (", "            if size != expected_size and not options.quick:\n                raise VerificationFail(\n                    \"%s is %d bytes%s, should be %d bytes\" % ("),
+ ('C18', 'f13-regress', RPZ, "        if fn is not None and startpos == endpos:", "        if False:"),
+]
